@@ -316,3 +316,48 @@ def oriented(node):
             x.left, x.comparators[0] = x.comparators[0], x.left
             x.ops[0] = swap[type(x.ops[0])]()
     return n
+
+
+def unroll_literal_loops(stmts):
+    """`for a, b in [(k1, v1), (k2, v2), ...]: body` (a literal list / tuple of tuples, or `{k: v, ...}.items()`) is replaced by
+    one copy of the body per element with the loop targets substituted and the body's locals renamed per copy;
+    `getattr(x, 'name')` with a constant name becomes `x.name`.  Table-driven code and its spelled-out form then look the same."""
+    out = []
+    for st in stmts:
+        items = None
+        if isinstance(st, ast.For) and not st.orelse:
+            it = st.iter
+            if isinstance(it, (ast.List, ast.Tuple)) and it.elts and all(isinstance(e, (ast.Tuple, ast.List)) for e in it.elts):
+                items = [list(e.elts) for e in it.elts]
+            elif isinstance(it, ast.Call) and isinstance(it.func, ast.Attribute) and it.func.attr == "items" and \
+                    isinstance(it.func.value, ast.Dict) and it.func.value.keys and all(k is not None for k in it.func.value.keys):
+                items = [[k, v] for k, v in zip(it.func.value.keys, it.func.value.values)]
+            tgt = st.target
+            names = [t.id for t in tgt.elts] if isinstance(tgt, (ast.Tuple, ast.List)) and all(isinstance(t, ast.Name) for t in tgt.elts) \
+                else None
+            if items is None or names is None or any(len(i) != len(names) for i in items) or \
+                    any(isinstance(x, (ast.Break, ast.Continue, ast.Return)) for b in st.body for x in ast.walk(b)):
+                items = None
+        if items is None:
+            out.append(st)
+            continue
+        body_locals = {n.id for b in st.body for n in ast.walk(b) if isinstance(n, ast.Name) and isinstance(n.ctx, ast.Store)}
+        for k, item in enumerate(items):
+            mapping = dict(zip(names, item))
+            mapping.update({n: ast.Name(id="%s__it%d" % (n, k), ctx=ast.Load()) for n in body_locals})
+            for b in st.body:
+                nb = clone(b)
+                for x in ast.walk(nb):
+                    if isinstance(x, ast.Name) and isinstance(x.ctx, ast.Store) and x.id in body_locals:
+                        x.id = "%s__it%d" % (x.id, k)
+                nb = subst_names(nb, mapping)
+
+                class G(ast.NodeTransformer):
+                    def visit_Call(self, c):
+                        self.generic_visit(c)
+                        if isinstance(c.func, ast.Name) and c.func.id == "getattr" and len(c.args) == 2 and \
+                                isinstance(c.args[1], ast.Constant) and isinstance(c.args[1].value, str) and c.args[1].value.isidentifier():
+                            return ast.copy_location(ast.Attribute(value=c.args[0], attr=c.args[1].value, ctx=ast.Load()), c)
+                        return c
+                out.append(G().visit(nb))
+    return out
